@@ -111,7 +111,8 @@ class Sim:
         self.cache = core.scratch_dir("jitcache-")
         self.tmp = core.scratch_dir("jittmp-")
         self.fault_free = not [f for f in self.faults if f["kind"] != "stall"] and not any(
-            p["kind"] not in ("warm", "stale-failed") for p in scn.get("pre", []))
+            p["kind"] not in ("warm", "stale-failed", "warm+stale-failed", "stale-failed+complete-so")
+            for p in scn.get("pre", []))
         self.keep_cache = False
         self.mode = scn.get("mode", "C14")
         self.sim_seconds = 0.0
@@ -786,6 +787,26 @@ class Sim:
                 with open(self.path(so), "wb") as f:
                     f.write(data[: int(len(data) * pre.get("frac", 0.5))])
                 gh.update(pre_orphan=True, holder_end="killed", build="abandoned", so_state="torn")
+            elif k == "warm+stale-failed":
+                # an earlier failure, then a successful rebuild: complete module, marker, and the
+                # .failed file of the first attempt still lying around
+                for f in os.listdir(src):
+                    if f.startswith(m):
+                        shutil.copy2(os.path.join(src, f), self.path(f))
+                shutil.copy2(os.path.join(src, m + ".c"), self.path(m + ".c.failed"))
+                gh.update(build="complete", marker="written", so_state="complete", warm=True,
+                          holder_end="returned")
+                so = [f for f in os.listdir(src) if f.startswith(m) and f.endswith(".so")]
+                gh["so_size"] = os.path.getsize(os.path.join(src, so[0]))
+            elif k == "stale-failed+complete-so":
+                # a build that linked completely and then failed (no marker, lock released)
+                shutil.copy2(os.path.join(src, m + ".c"), self.path(m + ".c.failed"))
+                for f in os.listdir(src):
+                    if f.startswith(m) and f.endswith((".o", ".so")):
+                        shutil.copy2(os.path.join(src, f), self.path(f))
+                gh.update(build="failed", pre_failed=True, holder_end="raised", so_state="complete")
+                so = [f for f in os.listdir(src) if f.startswith(m) and f.endswith(".so")]
+                gh["so_size"] = os.path.getsize(os.path.join(src, so[0]))
             elif k == "stale-failed":
                 shutil.copy2(os.path.join(src, m + ".c"), self.path(m + ".c.failed"))
                 if pre.get("leftovers"):
